@@ -149,8 +149,11 @@ def run(R):
                 if b.dominates(tx, x) and is_call(off, name='len') and mentions_local_named(b, off, 'buf'):
                     # the len() call must be evaluated before encode_item
                     lb = [bb for bb, lt in b.calls(name='len') if lt is off[4]]
-                    okt = bool(lb) and b.dominates(lb[0], eb)
-            R.check(okt, 'C06.R3', 'partial-frame-cut', site(b, x), 'flush after a failed encode_item is preceded by truncate(buf, offset saved before encode_item): %r' % okt)
+                    srcp = [bb for bb, st_ in b.calls(pat='Stream::poll_next')]
+                    # saved after this iteration's source poll and before encode_item (a value hoisted out of the loop
+                    # would be the length before the *first* message of the batch)
+                    okt = bool(lb) and b.dominates(lb[0], eb) and bool(srcp) and all(b.dominates(sp_, lb[0]) for sp_ in srcp)
+            R.check(okt, 'C06.R3', 'partial-frame-cut', site(b, x), 'flush after a failed encode_item is preceded by truncate(buf, offset saved in the same iteration, after the source poll and before encode_item): %r' % okt)
         if not splits:
             R.ok('C06.R3', 'partial-frame-cut:none', site(b, eb), 'no flush in the failure arm')
         # every split_to yields the whole buffer
